@@ -1011,6 +1011,11 @@ func dstPass(c *core.Ctx) {
 			for _, tr := range trs {
 				parts = append(parts, fmt.Sprint(tr[0]), fmt.Sprint(tr[1]))
 			}
+			if year <= 2024 {
+				// historical years: the zone data the Lean table (Model/C13DstZones.lean, proved to satisfy
+				// the local-midnight contract) was taken from must be what the tz database says today
+				c.Op(fmt.Sprintf("dstzone %s@%d", zn, year), strings.Join(parts, " "))
+			}
 			time.Local = loc
 			zoneTag, zoneTrs = "dst:"+zn, strings.Join(parts, " ")
 			for _, tr := range trs {
